@@ -1,6 +1,8 @@
 """C16 — streaming destinations are written strictly in order, each byte once."""
 import itertools
+import os
 import random
+import stat
 import threading
 
 from ..oracles import V
@@ -17,7 +19,7 @@ RULE = ('delivery histories as the download loop can produce them: an object of 
         'equals the longest prefix covered by everything delivered so far; at the end nothing is unreleased. (rand) random histories '
         'up to 64 bytes / 5 parts / 4 attempts. (mgr) histories pushed from one thread per part through the real '
         'DownloadNonSeekableOutputManager.queue_file_io_task + BoundedExecutor IO thread into a recording sink (with line-level yield '
-        'injection in download.py) and, for single-part histories, through the immediate-write path. non-trivial = history contains at '
+        'injection in download.py) and, for single-part histories, through the immediate-write path. (e2e) whole downloads through TransferManager to stream objects, FIFO paths and symbolic links to FIFOs, with gated part orders, retried ranges and short reads: content exact, stream writes at strictly increasing positions, the FIFO / link still in place. non-trivial = history contains at '
         'least one re-delivery or out-of-order arrival; distinct = distinct histories')
 ASSUMPTIONS = ['all attempts deliver identical bytes for identical positions (the object does not change during the download)']
 CASE_TIMEOUT = 600.0
@@ -277,6 +279,24 @@ def gen_cases(tier, seed):
         cases.append({'type': 'mgr', 'seed': rng.randrange(1 << 30), 'n': rng.choice([5, 16, 40, 64]), 'parts': rng.choice([1, 2, 3, 5]),
                       'attempts': rng.choice([1, 2, 3, 4]), 'mode': rng.choice(['threads', 'threads', 'sequential', 'immediate']),
                       'yield_p': rng.choice([0.0, 0.2])})
+    # (e2e) the whole way through TransferManager.download: destinations that cannot seek given as a stream object, as the path of a
+    # FIFO, and as a symbolic link to a FIFO (like /dev/stdout), parts finishing in steered orders, retried ranges, short reads
+    for i in range(60 if quick else 600):
+        C = rng.choice([4, 8])
+        T = rng.choice([C, 2 * C])
+        size = rng.choice([T - 1, T, 2 * C + 1, 4 * C, 5 * C + 3])
+        t = {'kind': 'download', 'dst': rng.choice(['nonseekable', 'fifo', 'fifo']), 'size': size}
+        if t['dst'] == 'fifo' and rng.random() < 0.5:
+            t['symlink'] = True
+        cfg = dict(multipart_threshold=T, multipart_chunksize=C, io_chunksize=rng.choice([1, 3, C]), max_request_concurrency=rng.choice([1, 2, 3]),
+                   max_in_memory_download_chunks=rng.choice([1, 2, 3]), num_download_attempts=3)
+        spec = {'seed': rng.randrange(1 << 30), 'config': cfg, 'transfers': [t], 'get_read_caps': rng.choice([None, [[2], [3]], [[1, 4], [3, 2]]]), 'plan': {}}
+        if size >= T and rng.random() < 0.7:
+            spec['plan']['gate'] = {'match': 's3:GetObject', 'phase': rng.choice(['before', 'after']), 'policy': rng.choice(['reverse', 'lowest_last', 'seeded'])}
+        if rng.random() < 0.5:
+            st = 'all' if size < T else str(C * rng.randrange(0, (size + C - 1) // C))
+            spec['plan']['faults'] = [{'at': f't0/s3:GetObject:{st}#0', 'phase': 'body', 'bytes': rng.randrange(0, C), 'kind': 'connreset', 'tag': 'FAULT-e2e'}]
+        cases.append({'type': 'e2e', 'spec': spec})
     for c in cases:
         if c['type'] == 'mgr' and c['mode'] == 'immediate':
             c['parts'] = 1
@@ -285,8 +305,38 @@ def gen_cases(tier, seed):
     return cases
 
 
+def e2e_evaluate(obs):
+    from .. import oracles
+
+    viol = []
+    stats = {'e2e_runs': 1, 'e2e_writes': 0, 'e2e_fifo': 0, 'e2e_symlinked_fifo': 0}
+    for x in obs.xfers:
+        viol += oracles.content_oracle(obs, x)
+        if x.outcome != 'success':
+            viol.append(V(f'{x.label}: download to a streaming destination ended {x.outcome}: {x.exc!r}', sym='e2e-failed', dst=x.spec.get('dst')))
+        if x.fifo_reader is not None:
+            stats['e2e_fifo'] += 1
+            stats['e2e_symlinked_fifo'] += 1 if x.spec.get('symlink') else 0
+            if os.path.islink(x.dest) is not bool(x.spec.get('symlink')) or not stat.S_ISFIFO(os.stat(x.dest).st_mode):
+                viol.append(V(f'{x.label}: the FIFO (or the symbolic link to it) at the destination name was replaced', sym='fifo-replaced'))
+        else:
+            # the stream object's own record of what was written to it: strictly increasing offsets, every byte once
+            pos = 0
+            for (n, th, off, ln) in x.dest.writes:
+                stats['e2e_writes'] += 1
+                if off != pos:
+                    viol.append(V(f'{x.label}: write of {ln} bytes at stream position {off}, expected {pos}', sym='e2e-order'))
+                    break
+                pos += ln
+    return viol, stats, True, {'outcomes': {x.label: x.outcome for x in obs.xfers}}
+
+
 def run_case(case):
     t = case['type']
+    if t == 'e2e':
+        from .. import e2e
+
+        return e2e.run_with(case['spec'], e2e_evaluate)
     if t == 'exh':
         viol, stats = exhaustive(case['n'], case['parts'], case['attempts'], case.get('max_retried'), case.get('layout'))
         return {'verdict': 'violated' if viol else 'held', 'key': f'exh-{case["n"]}-{case["parts"]}-{case["attempts"]}-{case.get("layout")}' if stats['nontrivial'] or case['n'] > 1 else None,
